@@ -12,8 +12,10 @@ import (
 	"math/rand/v2"
 	"os"
 	"path/filepath"
+	"regexp"
 	"sort"
 	"strings"
+	"time"
 
 	"cuelang.org/go/cue/format"
 	"cuelang.org/go/cue/literal"
@@ -449,8 +451,8 @@ func c8loadKnown() map[string]string {
 
 func init() {
 	register("C08", "exploration", func(c *Ctx) {
-		c.Rule = "inputs: (a) the frozen corpus of the repository's .cue sources that parse, (b) mutants of corpus files under layout mutations that cannot change the token stream (blank lines, indentation, horizontal space where space already is, trailing spaces, explicit commas at line ends, CRLF) and comments in the admitted position classes (own line before a line, end of a line), 1-3 mutations each, (c) generated multi-line string/bytes literals (all quote forms, nesting depths, whitespace-only and over-indented lines), (d) programs of the C01 generator under the same mutations. Oracle: format.Source succeeds, its output parses, the normalised token streams of input and output are equal (commas dropped; string literals by class and unquoted value; interpolation parts modulo leading indentation; comments by text - every token and comment keeps its neighbours), and formatting the output again changes nothing. Non-trivial = distinct input with a comment or a multi-line literal."
-		c.Assume = []string{"cue/scanner in comment mode is the reader of both sides; literal.Unquote gives the value of a string literal", "files of the frozen corpus on which the pinned formatter already deviates are listed in corpus/c08_known.txt with their class (recorded findings); simplification (-s) is not exercised"}
+		c.Rule = "inputs: (a) the frozen corpus of the repository's .cue sources that parse, (b) mutants of corpus files under layout mutations that cannot change the token stream (blank lines, indentation, horizontal space where space already is, trailing spaces, explicit commas at line ends, CRLF) and comments in the admitted position classes (own line before a line, end of a line), 1-3 mutations each, (c) generated multi-line string/bytes literals (all quote forms, nesting depths, whitespace-only and over-indented lines), (d) programs of the C01 generator under the same mutations. Oracle: format.Source succeeds, its output parses, the normalised token streams of input and output are equal (commas dropped; string literals by class and unquoted value; interpolation parts modulo leading indentation; comments by text - every token and comment keeps its neighbours), and formatting the output again changes nothing. Second oracle on every input that passes the first: the syntax trees of input and output (parser with comments and resolution, internal/astinternal dump without positions, literals by class and value) are equal, so every comment is attached to the same node and every reference is bound to the same node. (e) -s (format.Simplify) on all streams and on generated programs in which quoted labels, identifiers, dynamic labels, lets and references of the same few names meet in nested scopes: the trees are equal after applying the documented simplifications (plain-identifier labels unquoted, `...`/`[string]: _`/`[_]: _` merged into one trailing `...`) to both, references still bind to the same nodes, -s is a fixpoint and plain fmt leaves its output alone, and a sample of input/output pairs is evaluated in worker processes and compared observationally. Non-trivial = distinct input with a comment or a multi-line literal."
+		c.Assume = []string{"cue/scanner in comment mode is the reader of both sides; literal.Unquote gives the value of a string literal", "files of the frozen corpus on which the pinned formatter already deviates are listed in corpus/c08_known.txt with their class (recorded findings)"}
 		if c.Replay != nil {
 			c.Inconclusive("replay: format the source stored in the violation file with cue fmt")
 			return
@@ -479,6 +481,13 @@ func init() {
 				c.NontrivialN(1)
 			}
 			if res == nil {
+				// second oracle (syntax tree with comment attachment and reference resolution), then -s
+				if res = c8checkTree(src); res == nil {
+					_, res = c8checkSimplify(src)
+					c.Count("corpus_simplify_runs", 1)
+				}
+			}
+			if res == nil {
 				if known[cf.Name] != "" {
 					c.Count("known_corpus_file_now_clean", 1)
 				}
@@ -488,6 +497,10 @@ func init() {
 				f, _ := os.OpenFile(listFile, os.O_APPEND|os.O_CREATE|os.O_WRONLY, 0o666)
 				fmt.Fprintf(f, "%s\t%s\n", cf.Name, res.class)
 				f.Close()
+				if g, err := os.OpenFile(listFile+".what", os.O_APPEND|os.O_CREATE|os.O_WRONLY, 0o666); err == nil {
+					fmt.Fprintf(g, "=== %s\t%s\n%s\n", cf.Name, res.class, res.what)
+					g.Close()
+				}
 				return
 			}
 			if known[cf.Name] == res.class {
@@ -567,6 +580,10 @@ func init() {
 					defer mon.WAL(string(m))()
 					if res := c8check(m); res != nil {
 						report(stream, names, m, res)
+					} else if res := c8checkTree(m); res != nil {
+						report(stream, names, m, res)
+					} else if _, res := c8checkSimplify(m); res != nil {
+						report(stream, names, m, res)
 					}
 				}()
 			}
@@ -587,10 +604,98 @@ func init() {
 					defer mon.WAL(string(src))()
 					if res := c8check(src); res != nil {
 						report("literal", "generated", src, res)
+					} else if res := c8checkTree(src); res != nil {
+						report("literal", "generated", src, res)
+					} else if _, res := c8checkSimplify(src); res != nil {
+						report("literal", "generated", src, res)
 					}
 				}()
 			}
 		})
+		// (e) -s on programs in which quoted labels, identifiers and references of the same names meet:
+		//     tree oracle on all of them, evaluation of input and output (worker processes) on a sample
+		nlab := c.N(30000, 400000)
+		nsem := c.N(1200, 16000)
+		type c8pair struct{ src, out string }
+		pairs := make([]c8pair, nsem)
+		c.Par(64, func(b int) {
+			r := c.RNG(fmt.Sprintf("label-%d", b))
+			for i := b; i < nlab; i += 64 {
+				var src []byte
+				if i%5 == 4 {
+					src = []byte(gen.Program(r))
+				} else {
+					src = []byte(c8labelProgram(r))
+				}
+				if _, err := parser.ParseFile("l.cue", src, parser.ParseComments); err != nil {
+					c.Count("label_program_does_not_parse", 1)
+					continue
+				}
+				c.Eval(1)
+				c.Count("simplify_label_programs", 1)
+				func() {
+					defer mon.WAL(string(src))()
+					if res := c8check(src); res != nil {
+						report("label-program", "generated", src, res)
+						return
+					}
+					out, res := c8checkSimplify(src)
+					if res != nil {
+						report("label-program", "generated", src, res)
+						return
+					}
+					if !bytes.Equal(out, src) {
+						c.Count("simplify_changed_the_text", 1)
+						c.Nontrivial(string(src))
+					}
+					if i < nsem {
+						pairs[i] = c8pair{string(src), string(out)}
+					}
+				}()
+			}
+		})
+		var cases []bcase
+		for i, p := range pairs {
+			if p.src == "" || p.src == p.out {
+				continue
+			}
+			cases = append(cases, bcase{ID: fmt.Sprintf("s%d-in", i), Op: "c01obs", Src: p.src}, bcase{ID: fmt.Sprintf("s%d-out", i), Op: "c01obs", Src: p.out})
+		}
+		resm := c.RunBatch(cases, 30*time.Second)
+		for i, p := range pairs {
+			if p.src == "" || p.src == p.out {
+				continue
+			}
+			a, fa := c01fromRes(resm[fmt.Sprintf("s%d-in", i)])
+			b, fb := c01fromRes(resm[fmt.Sprintf("s%d-out", i)])
+			if fa != "ok" || fb != "ok" {
+				c.Count("simplify_semantic_skipped:"+fa+"/"+fb, 1)
+				continue
+			}
+			c.Count("simplify_semantic_comparisons", 1)
+			var deps map[string]map[string]bool
+			if f, err := parser.ParseFile("l.cue", p.src); err == nil {
+				deps = c01deps(f)
+			}
+			// -s moves `...` and removes braces: which of several errors an erroneous field reports (cycle,
+			// incomplete, eval) may follow the declaration order (C01's subject); here an error is an error
+			c8errClass(a.raw)
+			c8errClass(a.final)
+			c8errClass(b.raw)
+			c8errClass(b.final)
+			if diffs, _ := c01compare(a, b, deps); len(diffs) > 0 {
+				c.Violate("C08|simplify-changes-the-value", fmt.Sprintf("cue fmt -s changes what the file evaluates to: %s\n--- input\n%s\n--- output of -s\n%s", strings.Join(diffs, "; "), p.src, p.out), map[string]any{"src": p.src, "out": p.out})
+			}
+		}
 		c.Sample(map[string]any{"literal_file": string(c8literalFile(c.RNG("sample")))})
+		c.Sample(map[string]any{"label_program": c8labelProgram(c.RNG("sample2"))})
 	})
+}
+
+var c8errRe = regexp.MustCompile(`_\|_\([a-z]+\)`)
+
+func c8errClass(m map[string]string) {
+	for k, v := range m {
+		m[k] = c8errRe.ReplaceAllString(v, "_|_(err)")
+	}
 }
